@@ -408,7 +408,11 @@ impl NetcodeServer {
                 packet.packet_type()
             );
 
-            client.last_packet_received_time = self.current_time;
+            // Only packets that are authenticated and replay protected count as a sign of life: connection
+            // requests are parsed without any key, handshake packets can be replayed.
+            if matches!(packet, Packet::Payload(_) | Packet::KeepAlive { .. } | Packet::Disconnect) {
+                client.last_packet_received_time = self.current_time;
+            }
             match client.state {
                 ConnectionState::Connected => match packet {
                     Packet::Disconnect => {
